@@ -96,14 +96,14 @@ def canon_index(t):
     the element of `enumerate(iter(X))` becomes ('item', X)"""
     if not isinstance(t, tuple) or not t:
         return t
-    if t[0] == "field" and t[2] in ("0", "1") and t[1][0] == "elem":
+    if t[0] == "field" and len(t) == 3 and isinstance(t[1], tuple) and t[2] in ("0", "1") and t[1][0] == "elem":
         it = base_iter(t[1][1])
         if it[0] == "call" and it[1].rsplit("::", 1)[-1] == "enumerate":
             src = base_iter(it[3][0])
             while src[0] == "call" and src[1].rsplit("::", 1)[-1] in ("iter", "into_iter", "iter_mut"):
                 src = base_iter(src[3][0])
             return ("idx", canon_index(src)) if t[2] == "0" else ("item", canon_index(src))
-    if t[0] == "elem":
+    if t[0] == "elem" and len(t) == 2 and isinstance(t[1], tuple):
         it = base_iter(t[1])
         if it[0] == "agg" and it[1].endswith("ops::Range"):
             d = dict(it[3])
@@ -119,7 +119,7 @@ def canon_index(t):
         if plain:
             return ("item", canon_index(src))
         return ("elem", canon_index(it))
-    if t[0] == "call":
+    if t[0] == "call" and len(t) == 5:
         return ("call", t[1], t[2], tuple(canon_index(a) for a in t[3]), None)
     return tuple(canon_index(x) if isinstance(x, tuple) else x for x in t)
 
@@ -304,12 +304,26 @@ class Logic:
                 return f if present else f_not(f)
         if t[0] == "call":
             last = t[1].rsplit("::", 1)[-1]
+            if last == "find_map" and len(t[3]) == 2 and ("Iterator::" in t[1]) and t[3][1][0] == "closure" and t[3][1][1] in self.F.bodies:
+                # ∃x. f(x) is Some
+                it, extra = split_filters(t[3][0])
+                cb = self.F.bodies[t[3][1][1]]
+                saved = self.ev.ctx
+                self.ev.fresh_ctx()
+                v = self.ev.ret_val(Env(cb, {1: t[3][1], 2: ("elem", it)}, 2))
+                self.ev.ctx = saved
+                body = f_and([self.closure_body_formula(c, it, True) for c in extra] + [self.of_option(v, True)])
+                f = ("exists", nosite(canon_domain(it)), body)
+                return f if present else f_not(f)
             if last in SEARCH and len(t[3]) == 2 and ("Iterator::" in t[1]):
                 f = self.quant("exists", t[3][0], [t[3][1]])
                 return f if present else f_not(f)
             if last in ("get", "get_mut") and "HashMap" in t[1] and len(t[3]) == 2:
                 f = ("atom", nosite(canon_index(norm_elems(("call", "std::collections::HashMap::contains_key", t[2], t[3], None)))))
                 return f if present else f_not(f)
+            if last in ("then", "then_some") and "bool" in t[1] and t[3]:
+                # `cond.then(|| v)` is Some exactly when cond holds
+                return self.of_term(t[3][0], present)
             if last == "checked_sub" and len(t[3]) == 2:
                 f = ("rel",) + canon_rel(("bin", "Le", t[3][1], t[3][0]), True)
                 return f if present else f_not(f)
